@@ -314,6 +314,7 @@ impl GenerationCache {
             type_mappings: Option<std::collections::BTreeMap<&'a String, &'a String>>,
             default_parameter_case: &'a str,
             default_field_case: &'a str,
+            visualize_deps: bool,
         }
 
         let hash_data = ConfigHashData {
@@ -323,6 +324,7 @@ impl GenerationCache {
             type_mappings: config.type_mappings.as_ref().map(|m| m.iter().collect()),
             default_parameter_case: &config.default_parameter_case,
             default_field_case: &config.default_field_case,
+            visualize_deps: config.should_visualize_deps(),
         };
 
         let json = serde_json::to_string(&hash_data)?;
